@@ -35,6 +35,9 @@ LAYERS: Dict[str, Dict[str, Any]] = {
     # several verbatim fragments in one equation with ordinary terms between them
     'verb3': dict(NoReject='TRUE', MaxStmts=1, MaxLeaves=3, MaxNodes=5, MaxNames=2, Kinds='VOnly', Idxs='ShapeIdxs', LhsIdxs='Lhs0', Nums='NoStr', Verbs='VerbSet',
                   BinOps='PlusOnly', CmpOps='NoStr', Funcs1='NoStr', Funcs2='NoStr', UseNeg='FALSE', UseParen='FALSE', UseCond='FALSE'),
+    # numeric literals in unusual but legal spellings (very small / very large, no digit before or after the point, leading zeros)
+    'nums': dict(NoReject='TRUE', MaxStmts=1, MaxLeaves=2, MaxNodes=3, MaxNames=1, Kinds='VOnly', Idxs='Lhs0', LhsIdxs='Lhs0', Nums='OddNums',
+                 BinOps='PlusOnly', CmpOps='NoStr', Funcs1='NoStr', Funcs2='NoStr', UseNeg='TRUE', UseParen='FALSE', UseCond='FALSE'),
     # boolean keywords (and / or / not) around comparisons
     'bool': dict(MaxStmts=1, MaxLeaves=3, MaxNodes=6, MaxNames=2, Kinds='VOnly', Idxs='Lhs0', LhsIdxs='Lhs0', Nums='NoStr',
                  BinOps='PlusOnly', CmpOps='LtOnly', Funcs1='NoStr', Funcs2='NoStr', UseNeg='FALSE', UseParen='FALSE', UseCond='TRUE',
@@ -104,7 +107,7 @@ def layer_cfg(layer: str, invariants: Sequence[str], emit: bool = True) -> str:
     return '\n'.join(lines) + '\n'
 
 
-SMALL_LAYERS = {'fortran_negpow': 4, 'fortran_pow3': 4, 'nsfunc': 2, 'verb3': 4, 'fortran_pow': 2, 'vstmt': 4, 'verb': 2, 'bool': 8, 'term': 2, 'merge2_small': 4, 'shape3_small': 8, 'fortran_small': 8, 'pair_small': 8, 'merge3': 8, 'merge2': 8}
+SMALL_LAYERS = {'nums': 2, 'fortran_negpow': 4, 'fortran_pow3': 4, 'nsfunc': 2, 'verb3': 4, 'fortran_pow': 2, 'vstmt': 4, 'verb': 2, 'bool': 8, 'term': 2, 'merge2_small': 4, 'shape3_small': 8, 'fortran_small': 8, 'pair_small': 8, 'merge3': 8, 'merge2': 8}
 
 
 def emit_layer(ctx: core.Ctx, layer: str, *, timeout: int = 3600) -> List[Dict[str, Any]]:
